@@ -30,7 +30,10 @@ LEVEL_TEXT = (
 )
 LEVEL_NOTE = (
     "Assumes damp = 0 for the equivariance clause (observation damping is not scaled with sigma_b) and the level-1 signatures derived in C08/C09 "
-    "(prior noise linear in base and calibrated scale: R-C09-4; whitened RMS / rescale: R-C08-3)."
+    "(prior noise linear in base and calibrated scale: R-C09-4; whitened RMS / rescale: R-C08-3).  The typing is inductive over solver steps; its base case is an initial "
+    "state whose covariance is zero (exact initial condition, the default) or is itself given in units of the base scale.  An absolute initial standard deviation "
+    "(prior_wiener_integrated_diffuse(tcoeffs, std) with std > 0) is a second scale of the model that the factories do not multiply by the base scale: the equivariance "
+    "clause does not hold for that input class (dense TS1, std = 0.1, c = 100: means differ by 9.6e-3), which the statement's quantifier does not list and this check does not cover."
 )
 
 
@@ -54,7 +57,7 @@ def deg_of_posterior(env, sf):
 
 
 def _run_own(chk, S: Session):
-    chk.assume("damp = 0 for the equivariance clause")
+    chk.assume("damp = 0 for the equivariance clause", "initial covariance zero or scaled with the base scale (base case of the inductive typing)")
     chk.trust("interface signatures of sdomain.py (derived per factorisation in C08 / C09)")
     r1 = chk.rule("R-C04-1", "scale-degree typing: means 0, uncalibrated covariances 1, estimated scales -1, calibrated covariances 0, acceptance quantity 0", floor=40)
     r2 = chk.rule("R-C04-2", "MLE running RMS: c_new^2 = n/(n+1) c^2 + b^2/(n+1); counter; first term", floor=6)
